@@ -9,9 +9,9 @@ CAB_NOTE = ("Trusted: z3 unsat answers; contract stubs for clingo / biodivine_ae
 
 T_CAB = "concolic symbolic execution of the real Python with z3 (path classes + frontier exhaustion); counterexamples replayed on clean code"
 CHECKS = {
-    "C01": dict(engine="E-CAB", category="model_checking", design_ref="§6 C01", technique=T_CAB,
+    "C01": dict(engine="E-CAB", category="model_checking", design_ref="§6 C01", technique=T_CAB + "; per-model SMT validation on the published models (z3 over all states: fixed-point attractors complete and sound, seed placement)",
                 text="A complete strategy with default settings (build, block, bfs, dfs, source-SCC, attractor-seed), then seeds of every expanded node: z3 decides over the symbolic truth table (REACH by repeated squaring, ATTR = terminal SCC) that every seed lies in an attractor inside its node and outside the node's successors and that every attractor has exactly one seed."),
-    "C05": dict(engine="E-CAB", category="model_checking", design_ref="§6 C05", technique=T_CAB,
+    "C05": dict(engine="E-CAB", category="model_checking", design_ref="§6 C05", technique=T_CAB + "; per-model SMT validation on the published models (z3 over all states: fixed-point attractors complete and sound, seed placement)",
                 text="A limited strategy with symbolic limits, completion by skip_remaining / skip_to_minimal on every stub / minimal-space expansion with skip_ignored, then seeds of every node: every seed in an attractor inside its node, every attractor at least once, exactly once if the network has no motif-avoidant attractor (SymNet predicate)."),
     "C09": dict(engine="E-LIFT", category="translation_validation", design_ref="§3.1, §6 C09", technique="SMT (z3) equivalence of the ASP program emitted by the real code, lifted over a generic Petri net, with the trap-space definition for all networks and covers" + "; per-model SMT validation on the published models (z3 over all states / all subspaces of the validated Petri net)",
                 note="Trusted: z3; clingo's enumeration contract (subset-minimal/maximal models under domRec), validated on every representative of every E-CAB run; locality of rule emission (checked on random sub-nets each run). Bounded: n <= 4 variables.",
